@@ -579,6 +579,16 @@ def correspond(ctx):
     alphabet = ["H", "C", "N", "O", "He", "Cl", "Ca", "Co", "Cu", "Hf", "B", "Br"]
     maxk = 6 if ctx.thorough else 4
     gterms, gmeta = [], []
+    hterms, hmeta = [], []
+    for text in ["", "C2x3", "C12x3H2", "Cx2", "h2", "2C", "CO2h", "C007", "C0H", "HHH", "ClCl2Cl", "C-2", "A1b2C3", " C"]:
+        for o2 in ("alphabetical", "hill", "Hill", "bad"):
+            try:
+                res = f"(Ok {cstr(order_molecular_formula(text, order=o2))})"
+            except Exception as e:
+                res = cerr(ekind(e))
+            hterms.append(f"({cstr(text)}, {cstr(o2)}, {res})")
+            hmeta.append({"formula": text, "order": o2})
+            corr.count("order_formula")
     for k in range(0, maxk + 1):
         for combo in itertools.combinations_with_replacement(alphabet, k):
             syms = list(combo)
@@ -597,6 +607,15 @@ def correspond(ctx):
                     corr.failures.append({"stream": "oracle:formula", "case": {"symbols": syms, "order": o}, "what": bad, "observed": out})
                 gterms.append(f"({clist(syms, cstr)}, {cstr(o)}, (Ok {cstr(out)}))")
                 gmeta.append({"symbols": syms, "order": o})
+                if rng.random() < 0.35:
+                    o2 = rng.choice(["alphabetical", "hill"])
+                    re_out = order_molecular_formula(out, order=o2)
+                    corr.count("order_formula")
+                    if re_out != molecular_formula_from_symbols(syms, order=o2):
+                        corr.failures.append({"stream": "oracle:formula", "case": {"symbols": syms, "order": o, "reorder": o2},
+                                              "what": "order_molecular_formula of a formula differs from the formula of the symbols in that order", "observed": re_out})
+                    hterms.append(f"({cstr(out)}, {cstr(o2)}, (Ok {cstr(re_out)}))")
+                    hmeta.append({"formula": out, "order": o2})
     for o in ("Hill ", "iupac", ""):
         try:
             molecular_formula_from_symbols(["H"], order=o)
@@ -623,6 +642,8 @@ def correspond(ctx):
     run("C15nre", REQ, "check_nre", nterms, nmeta, "pmol * Q * list Q * Q", 150, "nre", None)
     run("C15form", REQF, "check_formula", gterms, gmeta, "list string * string * outcome string", 1500, "formula",
         lambda t: f"let '(s, o, _) := {t} in formula_from_symbols s o")
+    run("C15ord", REQF, "check_order_formula", hterms, hmeta, "string * string * outcome string", 1500, "order_formula",
+        lambda t: f"let '(s, o, _) := {t} in order_formula s o")
     corr.exhaustive = False
     return corr
 
@@ -635,6 +656,13 @@ def replay(ctx, rp):
     from qcelemental.models import Molecule
     from qcelemental.molutil import molecular_formula_from_symbols
     case = rp["case"]
+    if "formula" in case:
+        from qcelemental.molutil import order_molecular_formula
+        try:
+            out = order_molecular_formula(case["formula"], order=case["order"])
+        except Exception as e:
+            out = ekind(e)
+        return {"input": case, "implementation": out, "fails": False}
     if "symbols" in case and "order" in case:
         out = molecular_formula_from_symbols(case["symbols"], order=case["order"])
         bad = oracle_formula(case["symbols"], case["order"], out)
@@ -688,14 +716,19 @@ LEVEL_TEXT = (
     "ghost atoms is accepted, with totals = sum / high-spin of the real fragments; parities add), "
     "C15_electrons_per_fragment and C15_electrons_additive, C15_nre_real_only, C15_nre_rigid_invariant (any orthogonal matrix, proper or "
     "improper, + shift: every squared distance is preserved, by ring), C15_nre_reorder_invariant / C15_nre_sum_invariant (a permutation of "
-    "the atoms permutes the terms, so every sum over them is unchanged), C15_formula_counts and C15_formula_ordered (alphabetical / Hill). "
+    "the atoms permutes the terms, so every sum over them is unchanged), C15_nre_inv_sqrt_enclosure (the rational pair used to compare the implementation's float brackets 1/sqrt(d2)), "
+    "C15_formula_counts and C15_formula_ordered (alphabetical / Hill), C15_formula_parse_roundtrip (string level: the two regular "
+    "expressions of order_molecular_formula read the written formula back as exactly the (symbol, count) items, for symbols of the form "
+    "upper-case letter + non-upper non-digit characters; C15_title_wellformed: title() writes every alphabetic symbol that way and is "
+    "idempotent), C15_formula_ext (the formula depends only on the counts) and C15_order_formula_consistent (order_molecular_formula of a "
+    "written formula = the formula of the same symbols in the requested order; hence idempotent), C15_subsystem_validates_ungrouped. "
     "Tied to the code on every run by exact differential execution over validated parents with 1-5 fragments (ghost atoms, charged and "
     "open-shell fragments, isotopic masses), unvalidated parents with non-contiguous fragments, ordered pairs of disjoint fragment subsets, "
     "irregular selections, both group_fragments values and orient; nelectrons / nuclear_repulsion_energy whole and per fragment; every "
     "symbol multiset up to size 4 (quick) / 6 (thorough) over a 12-element alphabet in both orders; and by the conservation oracle "
     "evaluated directly on the implementation's results (incl. rigid motion + atom reordering of the repulsion energy).")
 LEVEL_NOTE = (
-    "Trusted: Coq kernel + vm_compute; the hand-written models; the harness. subsystem_validates of the design is proved for the grouped path only; for "
-    "group_fragments=False (totals left to the constructor's search) acceptance is only checked by the oracle on every generated case; the string-level inverse of the formula rendering (parse_items) is exercised by Example and by the "
-    "oracle (order_molecular_formula round trip), the theorems are about the (symbol, count) items. The square root is outside the model: "
+    "Trusted: Coq kernel + vm_compute; the hand-written models; the harness. subsystem_validates is proved for both paths (for group_fragments=False under the "
+    "hypothesis that the new fragments are contiguous and in order, which from_schema checks and validated parents guarantee); order_molecular_formula is modelled (order_formula: cut at upper-case letters, non-digits then digits, ignored "
+    "remainder, ValueError when the text does not start with an upper-case letter) and compared on written formulas and irregular strings. The square root is outside the model: "
     "nuclear-repulsion theorems are about the multiset of (weight, squared distance) terms. Fractional charges outside the model. No axioms.")
